@@ -310,6 +310,18 @@ def residue_report(molgen):
         if fa != ga:
             out.append(("C05/result/post[residue-atoms]", "residue atoms equal the token's atoms (element, charge, isotope, aromaticity)",
                         {"token": str(tok), "want": fa, "got": ga}))
+        # independent of generate_smiles_fragment (the function under test): the token's own atom list, one written atom after the other
+        try:
+            written = []
+            for a_ in tok.atoms:
+                am = Chem.MolFromSmiles(a_.generate_string(False))
+                written.append(am.GetAtomWithIdx(0).GetSymbol() if am is not None and am.GetNumAtoms() >= 1 else "?")
+            got_syms = [mol.GetAtomWithIdx(i).GetSymbol() for i in range(r["start"], r["start"] + r["n"])]
+            if "?" not in written and [x for x in written if x != "H"] != [x for x in got_syms if x != "H"]:
+                out.append(("C05/result/post[residue-atoms]", "residue atoms are the atoms written in the token, in order (independent of the fragment text)",
+                            {"token": str(tok), "written": written, "got": got_syms}))
+        except Exception:
+            pass
         fb = bonds_of(frag)
         gb = {(i - r["start"], j - r["start"]): t for (i, j), t in bonds_of(mol).items()
               if r["start"] <= i < r["start"] + r["n"] and r["start"] <= j < r["start"] + r["n"]}
